@@ -137,8 +137,10 @@ fn canon(s: &str) -> String {
 }
 
 fn abort_thread() -> ! {
-    // unwind out of library code quietly; the controller reports the verdict
-    std::panic::resume_unwind(Box::new(AbortReplay));
+    // the run is over (verdict set): stay where we are until the controller exits the process.  Unwinding out of library code
+    // instead would run its Drop impls, which pass gates again (a second panic while unwinding aborts the process) and would
+    // make a blocked thread look finished.
+    loop { std::thread::park(); }
 }
 pub struct AbortReplay;
 
